@@ -209,10 +209,14 @@ class Gen:
         else:
             n = rng.choice(self.p["n_choices"])
             k = rng.randint(0, min(n, 5))
+            if n == 14 and rng.random() < 0.25:
+                k = rng.randint(9, 14)  # a crowded 14-slot table (the library's own nine types cannot fill it)
             slots = []
             used = set()
             for _ in range(k):
-                if rng.random() < self.p["opaque"] * 0.5:
+                from .refcodec import OPAQUE_CODES
+                opaque_left = [c for c in OPAQUE_CODES if c not in used]
+                if opaque_left and rng.random() < (self.p["opaque"] * 0.5 if k <= 5 else 0.5):
                     o = gen.opaque(rng, exclude=used)
                     s = {"code": o["code"], "fmt": o["fmt"], "bytes": o["bytes"]}
                     code = o["code"]
